@@ -27,6 +27,8 @@ def entryStr (r : Option Entry) : String :=
     writes the data only when `data != nullptr`; a lazily loaded section that was never made
     resident is saved as `size` zero bytes (the zero fill of `adjust_stream_size`) -/
 def fileBytes (b : SecBuf) : Bytes :=
+  -- `section_impl::save` asks `get_data()` (which loads lazily) since fix f73fbdf
+  let b := b.getData
   match b.data with
   | none => List.replicate b.size.toNat 0
   | some _ => b.view
